@@ -13,7 +13,8 @@ RULE = ('cases = generated tables (0-40 rows, thorough: up to 12000 rows to exce
         'distinct = distinct case digest'
         '; round 4: numeric key fields declared any/integer/number/year'
         '; round 7: infinities of both signs and magnitudes up to 1e308 / down to 5e-324'
-        "; round 8: format-string keys with literal text between the fields (':' and '!' included) and fields with a format specification next to bare ones")
+        "; round 8: format-string keys with literal text between the fields (':' and '!' included) and fields with a format specification next to bare ones"
+        '; round 9: numbers that are IntEnum members or instances of user subclasses of int/Decimal; keys that agree in their first 1100 characters')
 TRUSTED = ['Coq 8.16.1 kernel + vm_compute', 'harness/p12.py printers, oracle and finding recognisers',
            'KVFile (third party) is specified as an ordered map whose items() are ascending by key; exercised at several batch sizes and above its cache size',
            'order-preservation of the sign-flipped binary64 bit image is validated by correspondence, not proved (Proc/Sort.v dbl_bits)']
